@@ -342,4 +342,62 @@ def appStep (c : Cfg) (a : App) (i : AppIn) (now wall : Nat) : App × List AppEf
     | some s => stepNode c a n s .timerFire now wall []
     | none => (a, [])
 
+/-! ### the application's run loop (`Application::run`) and `AppClient::cancel()` -/
+
+/-- where `Application::run` is: `running` = `loop { poll; handle_event }`; `stopping` = the event
+loop has taken the stop request of `AppClient::cancel()` and sits in `poll_until_offline_with_timeout`
+(everything the client's event loop yields is swallowed there, only an Offline is noted; the node
+actors and their reorder-timeout tasks are still alive); `returned` = `AppEvent::Cancelled` was
+handled, `run()` has returned and the application with its node handles is dropped (the actors end
+when their queues are drained, the timeout tasks have nobody left to tell) -/
+inductive Phase where
+  | running | stopping | returned
+  deriving DecidableEq, Repr
+
+/-- what happens to the run loop: the event loop yields an event (or a timeout task completes), it
+takes the stop request, or it yields `AppEvent::Cancelled` (the final Offline was seen / the bounded
+wait of 1 s is over) -/
+inductive RunIn where
+  | ev (i : AppIn)
+  | stop
+  | cancelled
+  deriving DecidableEq, Repr
+
+structure RunApp where
+  app : App := {}
+  phase : Phase := .running
+  deriving Repr
+
+/-- `Application::run` around `appStep`. `AppEvent::Cancelled` is `return false`: NOTHING is sent to
+any node actor (a send into a node's bounded queue could wait for an actor that is itself waiting
+for the client), no store is touched; the loop just ends. -/
+def runStep (c : Cfg) (r : RunApp) (i : RunIn) (now wall : Nat) : RunApp × List AppEff :=
+  match r.phase with
+  | .returned => (r, [])
+  | .running =>
+    match i with
+    | .ev j => let x := appStep c r.app j now wall; ({ r with app := x.1 }, x.2)
+    | .stop => ({ r with phase := .stopping }, [])
+    | .cancelled => ({ r with phase := .returned }, [])
+  | .stopping =>
+    match i with
+    | .ev (.timerFire n) => let x := appStep c r.app (.timerFire n) now wall; ({ r with app := x.1 }, x.2)
+    | .ev .offline => ({ r with app := { r.app with online := false } }, [])   -- `handle_offline`, result dropped
+    | .ev _ => (r, [])                                                          -- swallowed by `poll_until_offline`
+    | .stop => (r, [])
+    | .cancelled => ({ r with phase := .returned }, [])
+
+/-- a history of the run loop with the clock readings of its steps -/
+def runAll (c : Cfg) (r : RunApp) : List (RunIn × Nat × Nat) → RunApp × List AppEff
+  | [] => (r, [])
+  | (i, now, wall) :: t =>
+    let (r1, e1) := runStep c r i now wall
+    let (r2, e2) := runAll c r1 t
+    (r2, e1 ++ e2)
+
+/-- the history of a cancel: the stop request is taken at `t1`, the client's event loop yields `evs`
+meanwhile, `Cancelled` arrives at `t2` -/
+def cancelHist (evs : List (AppIn × Nat × Nat)) (t1 t2 : Nat) : List (RunIn × Nat × Nat) :=
+  (RunIn.stop, t1, t1) :: (evs.map (fun x => (RunIn.ev x.1, x.2.1, x.2.2)) ++ [(RunIn.cancelled, t2, t2)])
+
 end Srad.Host
